@@ -643,6 +643,25 @@ def _rollup_levels(ctx, f):
               "append_data outside the new-entity branch", node=ll)
 
 
+def _list_elements(t):
+    """elements of a list built with displays, +, append and extend, in
+    order (a part that is not a display is a spliced ('star', part))"""
+    if t[0] in ("list", "tuple"):
+        return list(t[1])
+    if t[0] == "bin" and t[1] == "+":
+        a, b = _list_elements(t[2]), _list_elements(t[3])
+        return (a if a is not None else [("star", t[2])]) + (
+            b if b is not None else [("star", t[3])])
+    if t[0] == "mut" and t[2] == "append" and len(t[3]) == 1:
+        a = _list_elements(t[1])
+        return None if a is None else a + [t[3][0]]
+    if t[0] == "mut" and t[2] == "extend" and len(t[3]) == 1:
+        a, b = _list_elements(t[1]), _list_elements(t[3][0])
+        return None if a is None else a + (
+            b if b is not None else [("star", t[3][0])])
+    return None
+
+
 # ------------------------------------------------------------------ c
 def header_data_agreement(ctx, rule_id):
     """The result files get their header from one list (assign_confidence)
@@ -652,7 +671,10 @@ def header_data_agreement(ctx, rule_id):
     g = prog.func(AC)
     T = Terms(DefUse(prog, g))
 
+    from ..tutil import module_constants
+
     def role(x):
+        x = module_constants(prog, x)
         if x[0] == "star":
             return ("splice", tkey(no_uids(x[1])))
         if x[0] == "const" and isinstance(x[1], str):
@@ -976,7 +998,8 @@ def _target_decoy_routing(ctx):
         for t, _o in v.conds:
             for nm in ast.walk(t):
                 if isinstance(nm, ast.Name):
-                    tt = vT.of(nm)
+                    from ..tutil import module_constants as _mc
+                    tt = _mc(prog, vT.of(nm))
                     if tt == ("param", "decoys"):
                         names[nm.id] = "decoys"
                     elif any(x == ("const", ".db") for x in walk_term(tt)):
@@ -1404,18 +1427,37 @@ def _retained_rows(ctx):
               "statistic chunks are stored as "
               + str({k: show(v, 40) for k, v in col_of.items()}),
               node=wcf.node)
-    # renaming pairs lists of equal shape
+    # renaming pairs lists of equal shape: sink-driven - the mapping handed
+    # to get_dataframe_from_records is dict(zip(IN, OUT)) (any spelling);
+    # IN and OUT, however they are built (display, +, append, extend), have
+    # the same length and their spliced parts at the same positions
+    from ..tutil import dict_from_zip
     g = prog.func(AC)
+    gT = Terms(DefUse(prog, g))
+    gc = Calls(prog, g, T=gT)
     lists = {}
-    for n in ast.walk(g.node):
-        if isinstance(n, ast.Assign) and isinstance(n.value, ast.List) and \
-                ast.unparse(n.targets[0]) in ("out_metadata_columns",
-                                              "in_metadata_columns"):
-            lists[ast.unparse(n.targets[0])] = [
-                "*" if isinstance(e, ast.Starred) else "x"
-                for e in n.value.elts]
-    ok_l = len(lists) == 2 and lists["out_metadata_columns"] == \
-        lists["in_metadata_columns"]
+    maps = set()
+    for t_, _n in gc.calls("mokapot.utils.get_dataframe_from_records"):
+        b_ = bound_args(prog, t_) or {}
+        if b_.get("column_mapping") is not None:
+            maps.add(b_["column_mapping"])
+    ctx.require(len(maps) == 1, f"{g.qual}: the column mapping handed to "
+                f"get_dataframe_from_records was not found ({len(maps)})")
+    zz = dict_from_zip(next(iter(maps)))
+    ctx.require(zz is not None, f"{g.qual}: the column mapping is not "
+                "dict(zip(in, out)): " + show(next(iter(maps)), 100))
+
+    def shape_of(t):
+        d = _list_elements(t)
+        if d is None:
+            raise AnalysisError(
+                f"{g.qual}: a column list of the rename is built in a form "
+                f"the rule does not read: {show(t, 100)}")
+        return [("*", tkey(no_uids(x[1]))) if x[0] == "star" else "x"
+                for x in d]
+    lists = {"in_metadata_columns": shape_of(zz[0]),
+             "out_metadata_columns": shape_of(zz[1])}
+    ok_l = lists["out_metadata_columns"] == lists["in_metadata_columns"]
     ctx.check(ok_l, "C03e-rename-shape", g,
               "input and output column lists have the same shape (length, "
               "starred parts at the same positions)", f"{lists}",
